@@ -146,6 +146,7 @@ static void oracle(const char *kind, const char *fmt, ...)
 static struct urcu_bp_reader *tlsp[MAXT];	/* its URCU_TLS(urcu_bp_reader): set/cleared at the end of the
 						   registry-lock section that added/removed it */
 static struct urcu_bp_reader *addr0[MAXT];	/* address recorded at registration (oracle) */
+static int slot0[MAXT][2];			/* slot id recorded at registration (oracle) */
 static void *sim_keyval[MAXT];			/* sim: value of urcu_bp_key */
 static pthread_t ptid[MAXT];
 static int nlive(void) { int t, n = 0; for (t = 1; t < MAXT; t++) if (tlsp[t]) n++; return n; }
@@ -282,6 +283,20 @@ static void print_state(void)
 	printf("\n");
 }
 
+/* slot_stable / slot_unique on real pointers; runs before anything walks the registry list */
+static void check_addrs(const char *after)
+{
+	int t, u, k, i;
+	for (t = 1; t < MAXT; t++) {
+		if (!tlsp[t]) continue;
+		if (tlsp[t] != addr0[t]) oracle("moved", "after %s: reader of live thread %d moved", after, t);
+		if (slot_of(tlsp[t], &k, &i)) oracle("moved", "after %s: the reader address of live thread %d is no longer inside any chunk (chunk moved or unmapped)", after, t);
+		if (slot0[t][0] != k || slot0[t][1] != i) oracle("moved", "after %s: reader of live thread %d was slot %d.%d, its address is now slot %d.%d", after, t, slot0[t][0], slot0[t][1], k, i);
+		for (u = 1; u < t; u++)
+			if (tlsp[u] == tlsp[t]) oracle("shared", "after %s: threads %d and %d share a reader", after, u, t);
+	}
+}
+
 static void check_all(const char *after)
 {
 	struct registry_chunk *c;
@@ -392,7 +407,15 @@ static void rs_end(void)
 		} else if (!strcmp(g, "multi")) oracle("reuse", "register %d: more than one expansion in one allocation", t);
 		if (dm + dok && last_size != ((lastcap1 * sizeof(struct urcu_bp_reader) + sizeof(struct registry_chunk) + 4095) & ~4095UL))
 			oracle("capacity", "mapping length %zu does not match capacity %zu", last_size, lastcap1);
-		tlsp[t] = addr0[t] = r;
+		{
+			/* the real find_chunk() against the harness' own walk of the chunk list */
+			struct registry_chunk *fc = find_chunk(r), *c;
+			int n = 0;
+			cds_list_for_each_entry(c, &registry_arena.chunk_list, node) { if (n == k) break; n++; }
+			if (fc != c) oracle("moved", "find_chunk(reader of thread %d) does not return chunk %d", t, k);
+		}
+		tlsp[t] = addr0[t] = r; slot0[t][0] = k; slot0[t][1] = i;
+		check_addrs("register");
 		printf("reg %d %s %d %d\n", t, g, k, i);
 		hist[!strcmp(g, "no") ? H_REG_NO : !strcmp(g, "first") ? H_REG_FIRST : !strcmp(g, "inplace") ? H_REG_INPLACE : H_REG_NEW]++;
 		if (in_exit[t]) hist[H_REREG]++;
@@ -401,6 +424,7 @@ static void rs_end(void)
 	} else if (RS.tls0 && !r) {
 		struct urcu_bp_reader *q, *old = RS.tls0;
 		tlsp[t] = NULL;
+		check_addrs("unregister");
 		if (old->alloc || old->tid || old->ctr) oracle("exit", "thread %d removed, its reader still has alloc=%d tid=%ld ctr=%lu", t, old->alloc, (long)old->tid, old->ctr);
 		cds_list_for_each_entry(q, &registry, node)
 			if (q == old) oracle("exit", "thread %d removed, its reader is still in the registry", t);
@@ -427,6 +451,7 @@ static void is_end(void)
 	}
 	else if (d) oracle("exit", "urcu_bp_refcount changed by %d in one init_lock section", d);
 	else return;
+	check_addrs("init_lock section");
 	print_state();
 	check_all("init_lock section");
 }
@@ -770,6 +795,7 @@ static void child_report(int t)
 		k++;
 	}
 	for (u = 1; u < MAXT; u++) if (u != t) { if (tlsp[u]) n++; tlsp[u] = NULL; sim_keyval[u] = NULL; }
+	check_addrs("prune");
 	printf("prune %d %d\n", t, n);
 	print_state();
 	check_all("prune");
